@@ -321,7 +321,7 @@ func runHist(h *hist) obs {
 	// proxy: forwarded without touching ChatState) has reached the backend
 	send(&chat.UnsignedPlayerCommand{SessionPlayerCommand: chat.SessionPlayerCommand{Command: sentinel}})
 	var res obs
-	deadline := time.Now().Add(8 * time.Second)
+	deadline := time.Now().Add(20 * time.Second)
 	var written []proto.Packet
 	for {
 		written = backend.Written()
@@ -386,7 +386,7 @@ func main() {
 		h := genHist(rng.Fork(), kind)
 		o := runHist(h)
 		if o.hang {
-			out.GoViolation(map[string]any{"known": nil, "index": -1, "what": "chat queue never delivered the trailing sentinel command within 8s (a queued task never completed)",
+			out.GoViolation(map[string]any{"known": nil, "index": -1, "what": "chat queue never delivered the trailing sentinel command within 20s (a queued task never completed)",
 				"history": lib.ListOf(h.ops, func(x *op) string { return x.desc() })})
 		}
 		d := o.delayed
